@@ -98,6 +98,8 @@ def harness(E):
     q("get_webentities_links_slow", t2.get_webentities_links_slow)
     q("count_pages", t2.count_pages)
     q("count_crawled_pages", t2.count_crawled_pages)
+    q("count_links", t2.count_links)
+    q("links_metrics", t2.links_metrics)
     E.check(True, "torn:refused-or-consistent")
     # ... and report only pages and links that the completed history also reports
     for lru, crawled in pages:
